@@ -40,7 +40,17 @@ def run_known_findings(prop):
 def replay(prop, path):
     with open(path, encoding="utf-8") as f:
         rep = json.load(f)
-    traces = pool.run_jobs([rep["job"]], chunksize=1, procs=1)
+    if rep["job"].get("kind") == "cli":
+        from . import docs_main
+
+        res = pool.run_jobs([rep["job"]], chunksize=1, procs=1)
+        traces = [t for t in docs_main.ledger_traces(res[0]) if t["meta"]["runs"][0]["asset"] == rep["job"].get("asset_judged")]
+        if not traces:
+            print("the end-to-end run did not complete:", res[0]["res"].get("errors"))
+            print(f"VIOLATION property={prop} replay={path}")
+            return 1
+    else:
+        traces = pool.run_jobs([rep["job"]], chunksize=1, procs=1)
     verdicts, _, _ = tlc.validate_traces(traces, shards=1)
     mine = [(c, l) for c, l in verdicts[0] if c.startswith(prop + ".")]
     print(json.dumps({"history": rep["job"]["h"], "config": rep["job"]["c"], "failing_clauses": verdicts[0], "messages": traces[0]["meta"]["msgs"]}, indent=1))
@@ -95,7 +105,20 @@ def run(prop, tier):
     overflow = [t for t in traces if t["meta"]["overflow"]]
     traces = [t for t in traces if not t["meta"]["overflow"]]
 
-    print(f"[{timer.s():.0f}s] {nruns} real runs done", file=sys.stderr)
+    # (b') the same properties at the level of the entry points: method / schedule from -m or the config file, window and -n from the command
+    # line, transactions through the spreadsheet; what each run computed is one more trace for the same specification
+    from . import docs_main
+
+    cli_jobs, cli_stats = docs_main.cli_ledger_jobs(prop, tier, rnd)
+    cli_results = pool.run_jobs(cli_jobs, chunksize=2)
+    cli_traces = [t for r in cli_results for t in docs_main.ledger_traces(r)]
+    incomplete = [r for r in cli_results if r["res"]["exit"] != 0]
+    traces += cli_traces
+    nruns += len(cli_results)
+    for g in cli_stats:
+        states += g["states"]
+        transitions += g["transitions"]
+    print(f"[{timer.s():.0f}s] {nruns} real runs done ({len(cli_results)} end to end, {len(cli_traces)} asset traces)", file=sys.stderr)
     # model drift (P2): the deterministic output of Rp2Engine must be what the real compute_tax returned on the same history
     if engine is not None:
         drift = []
@@ -172,6 +195,8 @@ def run(prop, tier):
         t = traces[i]
         job = {"h": t["h"], "c": {"country": t["c"]["country"], "ltcg": t["c"]["ltcg"], "sched": t["c"]["sched"], "neg": t["meta"]["neg"]},
                "conc": t["meta"]["conc"], "runs": t["meta"]["runs"], "tag": t["meta"]["tag"]}
+        if t["meta"].get("cli_job"):
+            job = dict(t["meta"]["cli_job"], asset_judged=t["meta"]["runs"][0]["asset"])      # an end-to-end run: replayed through the entry point
         path = common.write_replay(prop, f"{c.split('.', 1)[1]}", {
             "property": prop, "clause": c, "line": l, "failing_traces_with_this_clause": len(lst), "job": job,
             "trace_lines": t["lines"], "messages": t["meta"]["msgs"], "reproduce": f"./check {prop} --replay <this file>"})
@@ -191,6 +216,7 @@ def run(prop, tier):
         "exhaustive": all(g["exhaustive"] for g in genstats if not g["simulated_behaviours"]),
         "model_checking": mc_results + ([engine] if engine else []), "generation": genstats,
         "negative_controls": {"generated": ctl_total, "rejected_by_property_clause": ctl_rejected},
+        "end_to_end_runs": {"runs": len(cli_results), "asset_traces": len(cli_traces), "runs_not_completed": len(incomplete), "generation": cli_stats},
         "histories_skipped_for_lattice_overflow": len(overflow),
         "traces_not_judged": len(unjudged),
         "clauses_of_other_properties_failing": other,
